@@ -86,7 +86,7 @@ def gen_op(w, rng, focus):
         for key, dom in (("model_key", ["hertz_para", "hertz_para", "hertz_cone"]),
                          ("range_type", ["absolute", "relative cp", "absolute", "bogus"]),
                          ("range_x", [[0, 0], (0, 0), [-8e-7, 4e-7], (-8e-7, 4e-7), [-1.2e-6, 4e-7], "OBJ:range",
-                                      [6e-7, 4e-7], (9e-7, 4e-7)]),
+                                      [6e-7, 4e-7], (9e-7, 4e-7), [-8.08e-7, 4e-7], [-8e-7, 4.07e-7]]),
                          ("optimal_fit_edelta", [True, True, False]),
                          ("optimal_fit_num_samples", [7, 9]),
                          ("segment", [0, 1, "approach", "retract"]),
@@ -419,6 +419,15 @@ def scenarios():
          [pp1, setp("E", "value", 2000.0), fitobj, setp("E", "min", 1000.0), fitobj]),
         ("only the upper limit edited (limit stays inactive)",
          [pp1, fitobj, setp("E", "max", 1e6), fitobj]),
+        ("an interval bound changes by a few nanometres",
+         [pp1, {"op": "fit", "kw": {"range_x": [-8e-7, 4e-7], "range_type": "absolute"}},
+          {"op": "fit", "kw": {"range_x": [-8.08e-7, 4e-7]}}, {"op": "fit", "kw": {"range_x": [-8.08e-7, 4.07e-7]}}]),
+        ("an interval bound set directly changes by a few nanometres",
+         [pp1, {"op": "fit", "kw": {"range_x": [-8e-7, 4e-7], "range_type": "absolute"}},
+          {"op": "set", "key": "range_x", "value": [-7.93e-7, 4e-7]}, {"op": "fit", "kw": {}}]),
+        ("weighting width / correction factor change in the last digits",
+         [pp1, {"op": "fit", "kw": {"weight_cp": 5e-7, "gcf_k": 0.5}},
+          {"op": "fit", "kw": {"weight_cp": 5.000001e-7}}, {"op": "fit", "kw": {"gcf_k": 0.50000001}}]),
         ("plateau search, then only range_x[0] changes to an inverted interval",
          [pp1, plateau, {"op": "fit", "kw": {"range_x": [6e-7, 4e-7]}}]),
         ("plateau search, then range_x[0] set directly to an inverted interval",
